@@ -127,6 +127,9 @@ func init() {
 				return !isT(g, vLeft)
 			})
 		}
+		c.mayRow(hm["suspect"], "C08/suspect/departure-is-final", "a departure is final: a suspect claim never rewrites a record that has left (or is dead) and never starts a suspicion for it - only an alive record can become suspect", classIn("W:*", "TIMERNEW", "TIMERSET"), func(g getf, e *gea.Effect) bool {
+			return g(vS0) == "StateAlive"
+		})
 		c.mayRow(hm["alive"], "C08/alive/left-self-inert", "once the node has left, an alive claim about itself (queued or from the network) has no effect at all", classNotIn("LOCK:*"), func(g getf, e *gea.Effect) bool {
 			return !(isT(g, vLeft) && isT(g, vSelf))
 		})
